@@ -82,6 +82,10 @@ func (w *SigToCid_Writer) Put(sig solana.Signature, cid_ cid.Cid) error {
 	}
 	key := sig[:]
 	value := cid_.Bytes()
+	if len(value) > IndexValueSize_SigToCid {
+		// the index stores fixed-size values: a longer CID would be cut (and every lookup of it would fail)
+		return fmt.Errorf("cid %s is %d bytes long, the index stores CIDs of at most %d bytes", cid_, len(value), IndexValueSize_SigToCid)
+	}
 	return w.index.Insert(key, value)
 }
 
